@@ -35,6 +35,10 @@ EscapedChanges(o) == {c \in SeqRange(o.changes) : ~AllowedPath(o, c.path)}
 \* every created / modified / deleted path lies inside the destination, or the operation is an error
 Obs_Confined(o) == o.err \/ EscapedChanges(o) = {}
 
+\* nothing the operation created inside the destination resolves outside it (a symlink whose target lies outside,
+\* a hard link to a file outside), or the operation is an error
+Obs_NoOutsideLinks(o) == o.err \/ o.leaks = <<>>
+
 \* every file name exposed by a loaded chart is a clean relative path ("BS": a component holding a backslash or NUL)
 Obs_CleanName(cs) == CleanRel(cs) /\ \A k \in DOMAIN cs : cs[k] # "BS"
 Obs_Names(o) == o.err \/ \A n \in SeqRange(o.names) : Obs_CleanName(n.comps)
@@ -56,6 +60,7 @@ Obs_ConfFiles(o) == (~o.err /\ ~o.specErr) => ObsFiles(o) = SpecFiles(o)
 Judge16 ==
   LET o == Obs[i] IN
   /\ Say(Obs_Confined(o), <<"OBSVIOL", i, "C16_Confined">>)
+  /\ Say(Obs_NoOutsideLinks(o), <<"OBSVIOL", i, "C16_NoOutsideLinks">>)
   /\ Say(Obs_Names(o), <<"OBSVIOL", i, "C16_CleanNames">>)
   /\ Say(Obs_SizeReject(o), <<"OBSVIOL", i, "C16_SizeReject">>)
   /\ Say(Obs_SizeRead(o), <<"OBSVIOL", i, "C16_SizeRead">>)
